@@ -1,5 +1,6 @@
 import Ecal.Drivers.Util
 import Ecal.Model.Cascade
+import Std.Data.HashSet
 /-!
 Driver of C02 (payload format: see `go/cmd/harness/c02.go`).
 
@@ -136,6 +137,27 @@ def insertSorted (x : Nat × Nat) : List (Nat × Nat) → List (Nat × Nat)
 
 def sortPairs (l : List (Nat × Nat)) : List (Nat × Nat) := l.foldr insertSorted []
 
+/-- the canonical result line of a cascade read off a final state -/
+def resultOf (p : Plan) (c : Casc) (s : State) (nodeOf : List Nat) : String :=
+  let rootTrig := match s.mons[0]? with
+    | some r => !r.skipped
+    | none => false
+  let returned := if c.wait then s.waitReturned else (s.handlerCalls ≥ 1 || !rootTrig)
+  if !returned || s.panicked then "ret=0"
+  else
+    let handed := s.mons.filter fun m => m.phase != .fresh
+    let fin := handed.filter fun m => m.phase.finished
+    let pending := s.mons.filter fun m => !m.todo.isEmpty
+    let errs := (allErrors s).flatMap fun (i, e) =>
+      match e with
+      | some rs => rs.map fun r => (nodeOf.getD i 9999, r)
+      | none => [(9999, 9999)]
+    let errs := sortPairs errs
+    let es := if errs.isEmpty then "-" else ",".intercalate (errs.map fun (n, k) => s!"{n}.{k}e")
+    -- through ECAL sinks the root monitor is created inside the builtin: handler and monitors are not observable
+    let hf := if p.ecal then "handler=- fin=-" else s!"handler={s.handlerCalls} fin={fin.length}/{handed.length}"
+    s!"ret=1 early={pending.length} {hf} errs={es} foreign=0 nil=0"
+
 /-- run the plan of one cascade to its end; result line of the cascade -/
 def expected (p : Plan) (c : Casc) : String :=
   let r : Option (State × Array Nat) := do
@@ -157,25 +179,7 @@ def expected (p : Plan) (c : Casc) : String :=
     some (s, nodeOf)
   match r with
   | none => "model-stuck"
-  | some (s, nodeOf) =>
-    let rootTrig := match s.mons[0]? with
-      | some r => !r.skipped
-      | none => false
-    let returned := if c.wait then s.waitReturned else (s.handlerCalls ≥ 1 || !rootTrig)
-    if !returned || s.panicked then "ret=0"
-    else
-      let handed := s.mons.filter fun m => m.phase != .fresh
-      let fin := handed.filter fun m => m.phase.finished
-      let pending := s.mons.filter fun m => !m.todo.isEmpty
-      let errs := (allErrors s).flatMap fun (i, e) =>
-        match e with
-        | some rs => rs.map fun r => (nodeOf.getD i 9999, r)
-        | none => [(9999, 9999)]
-      let errs := sortPairs errs
-      let es := if errs.isEmpty then "-" else ",".intercalate (errs.map fun (n, k) => s!"{n}.{k}e")
-      -- through ECAL sinks the root monitor is created inside the builtin: handler and monitors are not observable
-      let hf := if p.ecal then "handler=- fin=-" else s!"handler={s.handlerCalls} fin={fin.length}/{handed.length}"
-      s!"ret=1 early={pending.length} {hf} errs={es} foreign=0 nil=0"
+  | some (s, nodeOf) => resultOf p c s nodeOf.toList
 
 def nontrivial (p : Plan) : Bool :=
   p.cascs.any fun c => c.nodes.size ≥ 3 && c.nodes.any fun n => n.rules.any (!·)
@@ -185,6 +189,146 @@ def runCase (payload : String) : String :=
   | none => "bad-payload"
   | some p =>
     " ; ".intercalate (p.cascs.map (expected p)) ++ (if nontrivial p then "\tnt=1" else "")
+
+/-! ### exhaustive exploration of a plan on the transition system -/
+
+structure XState where
+  s : State
+  nodeOf : List Nat
+
+def phaseTag : Phase → Nat
+  | .fresh => 0 | .queued => 1 | .running _ => 2 | .failing _ => 3 | .errSet _ => 4 | .notifying _ => 5 | .done => 6
+
+def b2n (b : Bool) : Nat := if b then 1 else 0
+
+/-- canonical key of a state: monitors listed by PLAN NODE (creation order and worker identities
+    do not matter), then the scalar fields -/
+def key (c : Casc) (x : XState) : List Nat :=
+  let s := x.s
+  let mons := (List.range c.nodes.size).flatMap fun n =>
+    match (x.nodeOf.zip s.mons).find? (fun (nd, _) => nd == n) with
+    | some (_, m) => [1, phaseTag m.phase, m.todo.length, m.failed.foldl (fun a r => a + 2 ^ r) 0, b2n m.skipped,
+                      b2n m.inErrors, b2n m.err.isSome]
+    | none => [0]
+  mons ++ [s.unfinished, s.postPending, s.posted, s.obsWait, s.obsHandler, s.obsQueue, b2n s.hasQueue, s.dWait,
+           s.dHandler, s.dQueue, b2n s.waiting, b2n s.handlerReg, s.released, b2n s.waitReturned, s.handlerCalls,
+           b2n s.panicked]
+
+/-- plan node of the next child the action executing under monitor `i` creates, if any -/
+def nextKid (c : Casc) (x : XState) (i : Nat) (m : Mon) : Option Nat :=
+  match m.todo with
+  | [] => none
+  | k :: _ =>
+    let kids := childrenOf c (x.nodeOf.getD i 0) k
+    let created := (x.nodeOf.zip x.s.mons).filter fun (nd, cm) => cm.parent == some i && kids.contains nd
+    kids[created.length]?
+
+/-- the events the code can perform next in state `x` when it executes plan `c`: each goroutine
+    (adder, each worker inside a task, the poster) has one next step; `pop` uses the lowest free
+    worker (workers are symmetric); `dropQueue` whenever the queue entry is empty -/
+def enabledEvents (p : Plan) (c : Casc) (x : XState) : List (Event × Option Nat) :=
+  let s := x.s
+  let rootFresh : Bool := match s.mons[0]? with
+    | some r => r.phase == .fresh
+    | none => false
+  let rootEv := addEv c 0 0
+  let adder : List (Event × Option Nat) :=
+    if rootFresh == true then
+      if c.wait && !s.waiting then [(.register, none)]
+      else match rootEv with
+        | .addEvent _ true _ => if s.handlerReg then [(rootEv, none)] else [(.regHandler, none)]
+        | _ => [(rootEv, none)]
+    else if c.wait && s.released > 0 && !s.waitReturned then [(.waitReturns, none)] else []
+  let freeW := (List.range p.workers).find? fun w => s.workerFree w
+  let perMon := (List.range s.mons.length).flatMap fun i =>
+    match s.mons[i]? with
+    | none => []
+    | some m =>
+      match m.phase with
+      | .queued => match freeW with
+        | some w => [(Event.pop w i, none)]
+        | none => []
+      | .running _ =>
+        match m.todo with
+        | [] => [(.taskDone i, none)]
+        | k :: _ =>
+          -- a child created by this action and not yet added?
+          match (List.range s.mons.length).find? (fun j => match s.mons[j]? with
+              | some cm => cm.parent == some i && cm.phase == .fresh
+              | none => false) with
+          | some j => [(addEv c j (x.nodeOf.getD j 0), none)]
+          | none =>
+            match nextKid c x i m with
+            | some nd => [(.newChild i, some nd)]
+            | none =>
+              let ok := match c.nodes[x.nodeOf.getD i 0]? with
+                | some nd => nd.rules.getD k true
+                | none => true
+              [(.ruleReturns i ok, none)]
+      | .failing _ => [(.setErrors i, none)]
+      | .errSet _ => [(.errFinish i, none)]
+      | .notifying _ => [(.notified i, none)]
+      | _ => []
+  let pump : List (Event × Option Nat) :=
+    (if s.postPending > 0 then [(Event.post, none)] else []) ++
+    (if s.dWait > 0 then [(.observerRuns .wait, none)]
+     else if s.dHandler > 0 then [(.observerRuns .handler, none)]
+     else if s.dQueue > 0 then [(.observerRuns .queue, none)] else []) ++
+    (if s.hasQueue && !s.anyQueued then [(.dropQueue, none)] else [])
+  adder ++ perMon ++ pump
+
+def succs (p : Plan) (c : Casc) (x : XState) : List XState :=
+  (enabledEvents p c x).filterMap fun (e, nd) =>
+    match step x.s e with
+    | some s' => some { s := s', nodeOf := match nd with | some n => x.nodeOf ++ [n] | none => x.nodeOf }
+    | none => none
+
+structure Explored where
+  seen : Std.HashSet (List Nat) := {}
+  trans : Nat := 0
+  terminal : Nat := 0
+  outcomes : List String := []
+  stuck : Nat := 0      -- enabled event list non-empty but `step` refused one of them
+  bad : Nat := 0        -- a state violating an invariant checked at run time
+
+/-- invariants re-checked on every explored state (they are theorems; this guards the driver) -/
+def stateOk (s : State) : Bool :=
+  s.unfinished == (s.mons.filter fun m => !m.phase.finished).length && s.posted ≤ 1 && s.handlerCalls ≤ 1 &&
+  s.released ≤ 1 && !s.panicked && (s.released == 0 || s.mons.all fun m => m.phase.finished && m.todo.isEmpty)
+
+partial def exploreLoop (p : Plan) (c : Casc) (work : List XState) (acc : Explored) : Explored :=
+  match work with
+  | [] => acc
+  | x :: rest =>
+    let evs := enabledEvents p c x
+    let nexts := succs p c x
+    let acc := { acc with trans := acc.trans + nexts.length,
+                          stuck := acc.stuck + (evs.length - nexts.length),
+                          bad := acc.bad + (if stateOk x.s then 0 else 1) }
+    let acc := if evs.isEmpty then
+        let r := resultOf p c x.s x.nodeOf
+        { acc with terminal := acc.terminal + 1, outcomes := if acc.outcomes.contains r then acc.outcomes else r :: acc.outcomes }
+      else acc
+    let (work', acc) := nexts.foldl (fun (w, a) y =>
+      let k := key c y
+      if a.seen.contains k then (w, a) else (y :: w, { a with seen := a.seen.insert k })) (rest, acc)
+    exploreLoop p c work' acc
+
+def explore (p : Plan) (c : Casc) : Explored :=
+  let x0 : XState := { s := init p.workers p.failFirst, nodeOf := [0] }
+  exploreLoop p c [x0] { seen := ({} : Std.HashSet (List Nat)).insert (key c x0) }
+
+/-- `driver C02 explore`: payload = plan with ONE cascade -/
+def exploreCase (payload : String) : String :=
+  match parsePlan payload with
+  | some p =>
+    match p.cascs with
+    | [c] =>
+      let r := explore p c
+      let same := r.outcomes.length == 1 && r.outcomes.head? == some (expected p c)
+      s!"states={r.seen.size} trans={r.trans} terminal={r.terminal} outcomes={r.outcomes.length} same={b2n same} stuck={r.stuck} bad={r.bad}"
+    | _ => "bad-payload"
+  | none => "bad-payload"
 
 /-! ### trace replay -/
 
@@ -267,50 +411,96 @@ def replayTok (c : Casc) (s : State) (tok : String) : Except String State := do
     pure s'
   | _, _ => .error "unknown token"
 
-def replayCasc (p : Plan) (c : Casc) (trace : String) : Except String Nat := do
-  let toks := if trace.trimAscii.toString.isEmpty then [] else trace.trimAscii.toString.splitOn ","
-  let mut s := init p.workers p.failFirst
+/-- replay the tokens of one cascade; returns (number of tokens, legacy?, keys of the states visited when `collect`) -/
+def replayCasc (p : Plan) (c : Casc) (toks : List String) (collect : Bool := false) :
+    Except String (Nat × Bool × List (List Nat)) := do
+  let mut x : XState := { s := init p.workers p.failFirst, nodeOf := [0] }
   let mut k := 0
+  let mut keys : List (List Nat) := if collect then [key c x] else []
   -- a tree without the call sites `cascade.handler.registered` / `cascade.added` (hooks/C02b.patch):
   -- the registration of the finish-handler observer is not visible, assume it where the code has it
   let legacy := toks.any (·.startsWith "A") && !(toks.any (·.startsWith "K"))
   for t in toks do
     if legacy && t.startsWith "A0." then
-      match step s .regHandler with
-      | some s' => s := s'
+      match step x.s .regHandler with
+      | some s' => x := { x with s := s' }
       | none => throw s!"{k} {t} regHandler not enabled"
-    match replayTok c s t with
-    | .ok s' => s := s'
+    -- plan node of a child created by this token
+    let nd : Option Nat := if t.startsWith "C" then
+        match nats (t.drop 1).toString with
+        | [pm, _, _] => match x.s.mons[pm]? with
+          | some m => (nextKid c x pm m).orElse fun _ => some 9999
+          | none => some 9999
+        | _ => some 9999
+      else none
+    match replayTok c x.s t with
+    | .ok s' =>
+      x := { s := s', nodeOf := match nd with | some n => x.nodeOf ++ [n] | none => x.nodeOf }
+      if collect then keys := key c x :: keys
     | .error e => throw s!"{k} {t} {e}"
     k := k + 1
   -- end of the recorded run: the cascade is over
+  let s := x.s
   chk (s.posted == 1) "finished message not posted exactly once at the end of the trace"
   chk (s.mons.all fun m => m.phase.finished) "unfinished monitor at the end of the trace"
   chk (!c.wait || s.waitReturned) "wait did not return in the trace"
   chk (!s.panicked) "model assertion failed"
-  pure (if legacy then k * 2 + 1 else k * 2)
+  pure (k, legacy, keys)
+
+/-- a recorded trace is a global sequence `<cascade>:<token>,…` -/
+def parseTrace (t : String) : List (Nat × String) :=
+  if t.trimAscii.toString.isEmpty then [] else
+  (t.trimAscii.toString.splitOn ",").map fun x =>
+    match x.splitOn ":" with
+    | [ci, tok] => (ci.toNat?.getD 9999, tok)
+    | _ => (9999, x)
 
 def replayCase (payload : String) : String :=
   match payload.splitOn " ~ " with
-  | [pl, trs] =>
+  | [pl, tr] =>
     match parsePlan pl with
     | none => "bad-payload"
     | some p =>
-      let traces := trs.splitOn " ; "
-      if traces.length != p.cascs.length then "bad-trace-count"
-      else
-        let rs := (p.cascs.zip traces).zipIdx.map fun ((c, t), i) =>
-          match replayCasc p c t with
-          | .ok n => (i, n, "")
-          | .error e => (i, 0, e)
-        match rs.find? (fun (_, _, e) => e != "") with
-        | some (i, _, e) => s!"reject {i} {e}"
-        | none => s!"ok {rs.foldl (fun acc (_, n, _) => acc + n / 2) 0} legacy={rs.foldl (fun acc (_, n, _) => acc + n % 2) 0}"
+      let toks := parseTrace tr
+      let rs := p.cascs.zipIdx.map fun (c, i) =>
+        match replayCasc p c ((toks.filter (·.1 == i)).map (·.2)) with
+        | .ok (n, lg, _) => (i, n, lg, "")
+        | .error e => (i, 0, false, e)
+      match rs.find? (fun (_, _, _, e) => e != "") with
+      | some (i, _, _, e) => s!"reject {i} {e}"
+      | none => s!"ok {rs.foldl (fun acc (_, n, _, _) => acc + n) 0} legacy={rs.foldl (fun acc (_, _, lg, _) => acc + b2n lg) 0}"
+  | _ => "bad-payload"
+
+/-- `driver C02 cover`: payload = `<plan with one cascade> ~ <trace> | <trace> | …` — how much of the
+    exhaustively explored state space of the plan did the recorded runs of the real code visit? -/
+def coverCase (payload : String) : String :=
+  match payload.splitOn " ~ " with
+  | [pl, trs] =>
+    match parsePlan pl with
+    | some p =>
+      match p.cascs with
+      | [c] =>
+        let r := explore p c
+        let traces := trs.splitOn " | "
+        let (visited, outside, rejected, distinct) := traces.foldl (fun (v, o, rj, d) t =>
+          let toks := (parseTrace t).map (·.2)
+          match replayCasc p c toks true with
+          | .ok (_, _, keys) =>
+            let (v, o) := keys.foldl (fun (v, o) k =>
+              if r.seen.contains k then (v.insert k, o) else (v, o + 1)) (v, o)
+            (v, o, rj, d.insert (toks.filter fun t => !(t.startsWith "X")))
+          | .error _ => (v, o, rj + 1, d)) (({} : Std.HashSet (List Nat)), 0, 0, ({} : Std.HashSet (List String)))
+        let same := r.outcomes.length == 1 && r.outcomes.head? == some (expected p c)
+        s!"reach={r.seen.size} visited={visited.size} outside={outside} traces={traces.length} rejected={rejected} distinct={distinct.size} trans={r.trans} terminal={r.terminal} same={b2n same} stuck={r.stuck} bad={r.bad}"
+      | _ => "bad-payload"
+    | none => "bad-payload"
   | _ => "bad-payload"
 
 def run (args : List String) : IO Unit :=
   match args with
   | ["replay"] => lineLoop replayCase
+  | ["explore"] => lineLoop exploreCase
+  | ["cover"] => lineLoop coverCase
   | _ => lineLoop runCase
 
 end Ecal.Drv.C02
